@@ -127,7 +127,6 @@ Definition holds_at (c : dq_cfg) (t : tid) : bool :=
 Record invA (c : dq_cfg) : Prop := {
   a_nodup : NoDup (tids (q_thr c));
   a_mutex : forall t, holds_at c t = mutex_is c t;
-  a_bad : q_bad c = false;
   a_site : forall t th, lookup t (q_thr c) = Some th -> site_ok (t_pc th) (t_site th) = true;
   a_tm : forall t th, lookup t (q_thr c) = Some th -> tm_ok th = true
 }.
@@ -263,6 +262,13 @@ Ltac dq_nodup Hnd :=
   rewrite ?tids_wake, ?tids_update;
   first [ exact Hnd | apply nodup_spawn; assumption | apply nodup_remove; exact Hnd ].
 
+(* make symbolic program counters / sites concrete where the successor depends on them *)
+Ltac dq_sym :=
+  try match goal with H : is_park (t_pc ?th0) = true |- _ => destruct (t_pc th0) eqn:Hpc; try discriminate H end;
+  try match goal with H : is_tpark (t_pc ?th0) = true |- _ => destruct (t_pc th0) eqn:Hpc; try discriminate H end;
+  try match goal with |- context [after_bcast (t_site ?th0)] => destruct (t_site th0) eqn:Hst end;
+  try match goal with |- context [after_sigch (t_site ?th0)] => destruct (t_site th0) eqn:Hst end.
+
 Lemma wake1_site x g th : t_site (wake1 x g th) = t_site th.
 Proof. unfold wake1. destruct (parked_on x g th); reflexivity. Qed.
 Lemma wake1_tm x g th : t_tm (wake1 x g th) = t_tm th.
@@ -301,7 +307,7 @@ Ltac eqb_false :=
          end.
 
 Ltac mx_solve :=
-  unfold mutex_is in *; dq_simpl;
+  unfold mutex_is in *; dq_simpl; dq_cnd;
   repeat match goal with H : q_mutex ?c = _ |- _ => rewrite H in * end;
   try rewrite Nat.eqb_refl;
   repeat match goal with
@@ -310,11 +316,11 @@ Ltac mx_solve :=
          | H : false = match q_mutex ?c with _ => _ end |- _ => destruct (q_mutex c) eqn:?
          | |- context [match q_mutex ?c with _ => _ end] => destruct (q_mutex c) eqn:?
          end;
-  eqb_false; try reflexivity; try congruence; try discriminate.
+  rewrite ?Nat.eqb_refl; eqb_false; try reflexivity; try congruence; try discriminate.
 
 (* goal: holds_at c' t2 = mutex_is c' t2 *)
 Tactic Notation "mx_thread" ident(t2) ident(Hne) :=
-  intros t2; unfold holds_at; dq_simpl; rewrite ?lookup_wake;
+  intros t2; unfold holds_at; dq_simpl; dq_cnd; dq_simpl; rewrite ?lookup_wake;
   match goal with
   | Hl : lookup ?t _ = _ |- _ =>
     destruct (Nat.eq_dec t2 t) as [->|Hne];
@@ -329,29 +335,57 @@ Tactic Notation "mx_thread" ident(t2) ident(Hne) :=
 
 Lemma invA_step c e c' obs : invA c -> dq_exec1 c e = Some (c', obs) -> invA c'.
 Proof.
-  intros [Hnd Hmx Hbad Hsite Htm] H.
+  intros [Hnd Hmx Hsite Htm] H.
   dq_cases H.
+  all: dq_sym.
+  all: cbn [ctx_case after_bcast after_sigch bcond wcond].
   all: try (pose proof (Hmx t) as Hmx0; unfold holds_at in Hmx0; rewrite Hl in Hmx0; try rewrite Hpc in Hmx0; cbn [holds_lock] in Hmx0).
   all: try (pose proof (Hsite _ _ Hl) as Hsite0; rewrite Hpc in Hsite0).
   all: try (pose proof (Htm _ _ Hl) as Htm0; unfold tm_ok in Htm0; rewrite Hpc in Htm0).
+  all: try (solve [exfalso; unfold mutex_is in Hmx0; rewrite Heqo in Hmx0; discriminate Hmx0]).
+  all: try (solve [exfalso; rewrite Heqo in Htm0; discriminate Htm0]).
   all: constructor; dq_simpl; dq_cnd; dq_simpl.
   all: try (solve [dq_nodup Hnd]).
   all: try (solve [assumption]).
   all: try (solve [mx_thread t2 Hne;
-                   first [ solve [dq_simpl; cbn [holds_lock new_enq new_deq t_pc]; mx_solve]
+                   first [ solve [rewrite ?wake1_pc_holds; dq_simpl; cbn [holds_lock new_enq new_deq t_pc]; mx_solve]
                          | solve [specialize (Hmx t2); unfold holds_at in Hmx;
-                                  destruct (lookup t2 (q_thr c)); cbn [option_map]; rewrite ?wake1_pc_holds; rewrite Hmx; mx_solve] ]]).
-  all: try (solve [dq_thread t2 th2 Hl2 Hne; dq_unwake;
-                   first [ solve [first [apply wake1_site_ok|idtac]; eapply Hsite; eassumption]
+                                  destruct (lookup t2 (q_thr c)); cbn [option_map]; rewrite ?wake1_pc_holds;
+                                  (etransitivity; [exact Hmx|]); mx_solve] ]]).
+  all: try (solve [dq_thread t2 th2 Hl2 Hne; dq_unwake; first [apply wake1_site_ok|idtac];
+                   first [ solve [eapply Hsite; eassumption]
                          | solve [dq_simpl; cbn [new_enq new_deq t_pc t_site]; cbn [site_ok after_sigch after_bcast] in *;
                                   try reflexivity; try (unfold tm_take; destruct (t_tm th); dq_simpl);
                                   destruct (t_site th); try discriminate; reflexivity] ]]).
-  all: try (solve [dq_thread t2 th2 Hl2 Hne; dq_unwake;
-                   first [ solve [first [apply wake1_tm_ok|idtac]; eapply Htm; eassumption]
+  all: try (solve [dq_thread t2 th2 Hl2 Hne; dq_unwake; first [apply wake1_tm_ok|idtac];
+                   first [ solve [eapply Htm; eassumption]
                          | solve [unfold tm_ok, tm_take in *; dq_simpl; cbn [new_enq new_deq t_pc t_tm after_sigch after_bcast];
                                   try reflexivity; destruct (t_tm th); dq_simpl; try discriminate; try reflexivity;
                                   destruct (t_site th); try discriminate; reflexivity] ]]).
-  1: mx_thread t2 Hne.
-  1: dq_simpl; cbn [holds_lock new_enq new_deq t_pc]. 1: unfold mutex_is in *; dq_simpl.
-  Show.
-Abort.
+  - dq_thread t2 th2 Hl2 Hne; [dq_simpl; exact (Hsite _ _ Hl)|eapply Hsite; eassumption].
+  - dq_thread t2 th2 Hl2 Hne; [exact (Htm _ _ Hl)|eapply Htm; eassumption].
+  - dq_thread t2 th2 Hl2 Hne; [dq_simpl; exact (Hsite _ _ Hl)|eapply Hsite; eassumption].
+  - dq_thread t2 th2 Hl2 Hne; [unfold tm_ok; dq_simpl; destruct (t_pc th); reflexivity|eapply Htm; eassumption].
+Qed.
+
+Lemma invA_reachable cap old evs c : exec dq_step (dq_init cap old) evs = Some c -> invA c.
+Proof.
+  apply (invariant_reachable _ _ dq_step invA); [|apply invA_init].
+  intros c0 e c1 Hinv Hs. unfold dq_step in Hs.
+  destruct (dq_exec1 c0 e) as [[c2 obs]|] eqn:E; [|discriminate].
+  injection Hs as <-. eapply invA_step; eassumption.
+Qed.
+
+(* mutual exclusion: at most one call is inside a critical section *)
+Lemma dq_mutual_exclusion_lemma cap old evs c t1 t2 th1 th2 :
+  exec dq_step (dq_init cap old) evs = Some c ->
+  lookup t1 (q_thr c) = Some th1 -> lookup t2 (q_thr c) = Some th2 ->
+  holds_lock (t_pc th1) = true -> holds_lock (t_pc th2) = true -> t1 = t2.
+Proof.
+  intros Hex H1 H2 Hh1 Hh2. pose proof (invA_reachable _ _ _ _ Hex) as [_ Hmx _ _].
+  pose proof (Hmx t1) as M1. pose proof (Hmx t2) as M2.
+  unfold holds_at, mutex_is in *. rewrite H1 in M1. rewrite H2 in M2.
+  rewrite Hh1 in M1. rewrite Hh2 in M2.
+  destruct (q_mutex c) as [o|]; [|discriminate].
+  symmetry in M1, M2. apply Nat.eqb_eq in M1, M2. congruence.
+Qed.
